@@ -502,3 +502,27 @@ def fr7(ctx):
                   'after moving to the next block the reader state is not reset (cursor = 0, block_corrupted = false), or end-of-input is not reported as NotAvailable')
     if n == 0:
         ctx.missing('next_block-body', 'no FrameReader body calls BlockRead::next_block')
+
+
+@rule('FR8', ['C08', 'C02', 'C12'], floor=2, template='no-reach')
+def fr8(ctx):
+    """Quarantining a block is always reported: after `block_corrupted = true` the call cannot return a
+    frame/header, so the record reader learns that frames were skipped and abandons the open entry."""
+    n = 0
+    for b in ctx.f.bodies.values():
+        if not b.path.startswith(FRD) or b.generic_dup():
+            continue
+        seen = 0
+        for (p, pl, rv) in stores_to(b, 'FrameReader', 'block_corrupted'):
+            if const_store_val(rv) != 1:
+                continue
+            n += 1
+            seen += 1
+            r = b.reach_after(p)
+            oks = [e for e in b.exits() if e['kind'] in ('ok', 'forward') and e['point'] in r]
+            errs = [e for e in b.exits() if e['point'] in r and e['kind'] == 'err']
+            all_corr = bool(errs) and all(e.get('variant') == 'Corruption' for e in errs)
+            ctx.check(not oks and all_corr, '%s:quarantine-reported#%d' % (b.path, seen), where(b, p), 'block quarantine is followed only by Err(Corruption)',
+                      'after quarantining a block the frame reader can still return successfully (%s): frames are skipped silently and a multi-frame entry open in the record reader gets spliced with unrelated frames' % (b.loc(oks[0]['point']) if oks else 'no Corruption exit'))
+    if n == 0:
+        ctx.missing('quarantine-stores', 'no `block_corrupted = true` store found')
